@@ -10,18 +10,18 @@
 //!   decoder's failure), `ser:1` = `key must be a string`, `ser:2` = `float
 //!   key must be finite`.
 //! * output: byte-exact for float-free input. Floats are masked on both
-//!   sides: a binary64 written to MessagePack has its 8 payload bytes zeroed,
-//!   a float token in JSON text becomes `F`. A MessagePack input with a float
-//!   in key position answers `fk` instead of the output (a quoted float cannot
-//!   be told from a string in the text).
-//! * On a source-side failure only complete documents are compared (for a
-//!   MessagePack target there must not be anything else:
-//!   `j2m_no_partial_document`); on a serializer refusal the partial bytes of
-//!   the refused document are compared too.
+//!   sides: a binary64 written to MessagePack has its 8 payload bytes zeroed;
+//!   in JSON text every number token with `.`, `e` or `E` becomes `F`, and so
+//!   does the content of every string made of number characters only with one
+//!   of those three (`mask_json`; a float in key position is a quoted float).
+//! * JSON source failing: only complete MessagePack documents can have been
+//!   written (`j2m_no_partial_document`). MessagePack source failing: the JSON
+//!   written for the failing document up to that point is compared too, and a
+//!   refusal that precedes the decoder's failure is the verdict.
 
 use serde::de::{Deserialize, Deserializer, MapAccess, SeqAccess, Visitor};
 
-use crate::engines::json::{kind_of, mark_floats};
+use crate::engines::json::kind_of;
 use crate::engines::msgpack::{self as mp, MV};
 use crate::gen::{gen_deep, gen_doc, mutate, read_docs, to_json, to_msgpack, GenOpts, Spelling, Val, NASTY_INTS, NASTY_STRINGS};
 use crate::out::Out;
@@ -269,46 +269,99 @@ fn ser_kind(msg: &str) -> Option<&'static str> {
 	}
 }
 
+/// Canonical form of JSON text with float tokens masked (mirror of the
+/// driver's `maskFloats`): works on incomplete text too.
+pub fn mask_json(text: &[u8]) -> Vec<u8> {
+	let is_num = |b: u8| b.is_ascii_digit() || matches!(b, b'+' | b'-' | b'.' | b'e' | b'E');
+	let has_float = |t: &[u8]| t.iter().any(|b| matches!(b, b'.' | b'e' | b'E'));
+	let mut out = Vec::with_capacity(text.len());
+	let mut i = 0;
+	while i < text.len() {
+		let b = text[i];
+		if b == b'"' {
+			let start = i + 1;
+			let mut j = start;
+			let mut closed = false;
+			while j < text.len() {
+				if text[j] == b'"' {
+					closed = true;
+					break;
+				}
+				if text[j] == b'\\' && j + 1 < text.len() {
+					j += 2;
+				} else {
+					j += 1;
+				}
+			}
+			let content = &text[start..j.min(text.len())];
+			out.push(b'"');
+			if !content.is_empty() && content.iter().all(|c| is_num(*c)) && has_float(content) {
+				out.push(b'F');
+			} else {
+				out.extend_from_slice(content);
+			}
+			if closed {
+				out.push(b'"');
+				i = j + 1;
+			} else {
+				i = text.len();
+			}
+		} else if b == b'-' || b.is_ascii_digit() {
+			let start = i;
+			while i < text.len() && is_num(text[i]) {
+				i += 1;
+			}
+			let tok = &text[start..i];
+			if has_float(tok) {
+				out.push(b'F');
+			} else {
+				out.extend_from_slice(tok);
+			}
+		} else {
+			out.push(b);
+			i += 1;
+		}
+	}
+	out
+}
+
 pub fn m2j_case(out: &mut Out, input: &[u8], class: &str) {
 	out.count(&format!("m2j.class.{class}"));
-	let (docs, _) = mp_docs_as_xt(input);
-	let fk = docs.iter().any(has_float_key);
+	let (docs, all_decodable) = mp_docs_as_xt(input);
 	for (mode, supply) in MODES {
 		let r = translate(input, &supply(), Some(Fmt::Msgpack), Fmt::Json);
-		let (verdict, whole) = match &r.result {
-			Ok(()) => ("ok", true),
-			Err(e) => match ser_kind(e) {
-				// The refusal is the first failure of the run only if the
-				// document it happened in (the one after the complete lines)
-				// can be decoded at all.
-				Some(k) if docs.len() > r.output.iter().filter(|&&b| b == b'\n').count() => (k, true),
-				Some(_) => {
-					out.count("m2j.refusal_inside_an_undecodable_document");
-					("src", false)
-				}
-				None => ("src", false),
-			},
+		let verdict = match &r.result {
+			Ok(()) => "ok",
+			Err(e) => ser_kind(e).unwrap_or("src"),
 		};
-		let text = if whole { &r.output[..] } else { complete_lines(&r.output) };
-		let lines = text.iter().filter(|&&b| b == b'\n').count();
-		let shown = if fk { "fk".to_string() } else { hex(&mark_floats(text)) };
+		let lines = r.output.iter().filter(|&&b| b == b'\n').count();
+		if verdict.starts_with("ser") && docs.len() <= lines {
+			// the refused document is one the decoder would have failed on later
+			out.count("m2j.refusal_before_the_decoders_failure");
+		}
 		out.count(&format!("m2j.{mode}.{verdict}"));
-		out.case("m2j", &format!("{} {mode}", hex(input)), &format!("{verdict} {shown}"), lines > 0 || verdict.starts_with("ser"));
+		if complete_lines(&r.output).len() != r.output.len() {
+			out.count(&format!("m2j.{mode}.partial_document_compared"));
+		}
+		out.case("m2j", &format!("{} {mode}", hex(input)), &format!("{verdict} {}", hex(&mask_json(&r.output))), lines > 0 || verdict.starts_with("ser"));
 		// `unrepresentable_is_error`: a refused document is never completed —
 		// nothing follows its partial bytes, which hold no line terminator.
 		if verdict.starts_with("ser") {
 			out.eval("unrepresentable_is_error", &format!("{mode} {}", hex(input)), true);
-			let tail = &r.output[complete_lines(&r.output).len()..];
-			if tail.contains(&b'\n') || lines >= docs.len() {
+			if all_decodable && lines >= docs.len() {
 				out.fail("unrepresentable_is_error", "", format!("input={} mode={mode}: {}", hex(input), r.describe()));
 			}
+		}
+		// … and neither is a document the source failed in.
+		if !r.ok() && lines > docs.len() {
+			out.fail("failing_document_not_completed", "", format!("input={} mode={mode}: {} lines but {} decodable documents: {}", hex(input), lines, docs.len(), r.describe()));
 		}
 		if r.ok() {
 			fidelity(out, input, Fmt::Msgpack, &r, mode);
 		}
 	}
-	if fk {
-		out.count("m2j.float_key_output_not_compared");
+	if docs.iter().any(has_float_key) {
+		out.count("m2j.float_key_masked");
 	}
 	if docs.iter().any(has_float) {
 		out.count("m2j.floats_masked");
